@@ -44,6 +44,10 @@ pub fn classify(text: &str) -> &'static str {
         if (c == 'e' || c == 'E') && i > 0 && (cs[i - 1].is_ascii_digit() || cs[i - 1] == '.' || cs[i - 1] == '_') && digits_from(i + 1) >= 4 { long_after = true; }
         i += 1;
     }
+    // a product of numbers after a power-like operator (`1 << 10 10 10`): count all later digits
+    if let Some(k) = cs.iter().position(|c| *c == '^' || *c == '<' || *c == '>' || *c == '*') {
+        if cs[k..].iter().filter(|c| c.is_ascii_digit()).count() >= 6 && pows >= 1 { long_after = true; }
+    }
     let lower = text.to_lowercase();
     for kw in ["digits", "base", "exp", "factorize"] {
         if lower.contains(kw) { if kw == "factorize" || kw == "exp" { pows += 1; } else { let at = lower.find(kw).unwrap() + kw.len(); if digits_from(text[..at.min(text.len())].chars().count()) >= 4 { long_after = true; } } }
